@@ -359,12 +359,101 @@ def chunks(lst, n):
     return [lst[i : i + k] for i in range(0, len(lst), k)]
 
 
+def actnorm_scale_cases(seed):
+    """Data-dependent initialisation on badly scaled data (single precision): whatever the scale of the first
+    training batch - 1e-25 ... 1e20 per feature - that batch comes out with zero mean and unit variance."""
+    import warnings
+
+    warnings.filterwarnings("ignore")
+    import torch
+    from nflows import transforms as TR
+
+    n, fails = 0, []
+    g = torch.Generator().manual_seed(seed + 1)
+    for shape in ((64, 3), (16, 3, 2, 2)):
+        for scale in (1e-25, 1e-12, 1.0, 1e12, 1e20):
+            m = TR.ActNorm(3)
+            m.train()
+            x = (torch.randn(shape, generator=g) * torch.tensor([0.5, 1.0, 2.0]).reshape((1, 3) + (1,) * (len(shape) - 2)) + 0.3) * scale
+            n += 1
+            try:
+                with torch.no_grad():
+                    y, lad = m(x.clone())
+            except Exception as e:  # noqa
+                fails.append({"layer": "ActNorm", "clause": "init_on_scaled_data", "history": [["scale", repr(scale)], ["shape", repr(shape)]], "seed": seed, "variant": "scaled-data", "detail": "ActNorm first training-mode forward on data of scale %g raised %r" % (scale, e)})
+                continue
+            flat = y.transpose(0, 1).reshape(3, -1)
+            ok = bool(torch.isfinite(y).all()) and bool((flat.mean(1).abs() < 1e-3).all()) and bool(((flat.std(1) - 1).abs() < 1e-3).all())
+            if not ok:
+                fails.append({"layer": "ActNorm", "clause": "init_on_scaled_data", "history": [["scale", repr(scale)], ["shape", repr(shape)]], "seed": seed, "variant": "scaled-data", "detail": "ActNorm initialised by a batch of scale %g (shape %s): the batch comes out with per-feature mean %s and std %s (log_scale %s)" % (scale, tuple(shape), [round(float(v), 4) for v in flat.mean(1)], [round(float(v), 4) for v in flat.std(1)], [round(float(v), 2) for v in m.log_scale])})
+    return n, fails
+
+
+def flow_level_cases(seed):
+    """The momentum rule at the level of the flows that place batch-norm layers between their stages: after training
+    passes, EVERY batch-norm position holds the momentum blend of the statistics of ITS OWN inputs, and in evaluation
+    mode normalises with them (a position is identified by the order in which the layers are called)."""
+    import warnings
+
+    warnings.filterwarnings("ignore")
+    import torch
+    from nflows import flows as FL
+    from nflows.transforms.normalization import BatchNorm
+
+    n, fails = 0, []
+    builds = {
+        "SimpleRealNVP(batch_norm_between_layers)": lambda: FL.SimpleRealNVP(4, 8, num_layers=3, num_blocks_per_layer=1, batch_norm_between_layers=True),
+        "MaskedAutoregressiveFlow(batch_norm_between_layers)": lambda: FL.MaskedAutoregressiveFlow(3, 8, num_layers=3, num_blocks_per_layer=1, batch_norm_between_layers=True),
+    }
+    for name, build in builds.items():
+        torch.manual_seed(seed + 2)
+        flow = build()
+        g = torch.Generator().manual_seed(seed + 5)
+        with torch.no_grad():
+            for p_ in flow.parameters():
+                p_.add_(0.3 * torch.randn(p_.shape, generator=g))
+        positions = [t for t in flow._transform._transforms if isinstance(t, BatchNorm)]
+        if len(positions) < 2:
+            continue
+        calls = []
+        hooks = [m.register_forward_pre_hook(lambda mod, args: calls.append((mod, args[0].detach().clone()))) for m in set(positions)]
+        D = 4 if "RealNVP" in name else 3
+        expect = [(p_.running_mean.clone(), p_.running_var.clone()) for p_ in positions]   # as constructed
+        flow.train()
+        for step in range(2):
+            calls.clear()
+            with torch.no_grad():
+                flow.log_prob(torch.randn(64, D, generator=g) * 1.5 + 0.7)
+            if len(calls) != len(positions):
+                break
+            for k, (mod, xin) in enumerate(calls):
+                mom = positions[k].momentum
+                expect[k] = ((1 - mom) * expect[k][0] + mom * xin.mean(0), (1 - mom) * expect[k][1] + mom * xin.var(0))
+        for h in hooks:
+            h.remove()
+        n += 1
+        for k, pos in enumerate(positions):
+            if not torch.allclose(pos.running_mean, expect[k][0], atol=1e-5) or not torch.allclose(pos.running_var, expect[k][1], atol=1e-5):
+                fails.append({"layer": "BatchNorm", "clause": "flow_level_momentum_rule", "flow": name, "history": [["flow", name]], "seed": seed, "variant": "flow-level", "detail": "%s: after two training passes batch-norm position %d of %d holds running mean %s / variance %s, the momentum blend of the statistics of its own inputs is %s / %s" % (name, k + 1, len(positions), [round(float(v), 4) for v in pos.running_mean], [round(float(v), 4) for v in pos.running_var], [round(float(v), 4) for v in expect[k][0]], [round(float(v), 4) for v in expect[k][1]])})
+                break
+    return n, fails
+
+
 def main(run, replay=None):
     run.rule = (
         "cases = steps of walks covering every edge of the ActNormLife / BatchNormLife state graphs, executed on the real "
         "layers with the state dict and results compared after every step; non-trivial = distinct edges whose action is a "
         "forward/inverse call or a save+load"
     )
+    if replay and replay["case"].get("variant") == "scaled-data":
+        for f in actnorm_scale_cases(replay["case"]["seed"])[1]:
+            if f["history"] == replay["case"]["history"]:
+                run.violation({"layer": f["layer"], "clause": f["clause"]}, "replayed: " + f["detail"], replay["case"])
+        return
+    if replay and replay["case"].get("variant") == "flow-level":
+        for f in flow_level_cases(replay["case"]["seed"])[1]:
+            run.violation({"layer": f["layer"], "clause": f["clause"]}, "replayed: " + f["detail"], replay["case"])
+        return
     if replay:
         c = replay["case"]
         # re-run the recorded history alone through the lock-step driver
@@ -436,6 +525,12 @@ def main(run, replay=None):
         fails += bfails
         w0 = walks[0][:6]
         run.sample({"layer": "BatchNorm", "momentum": str(mom), "walk_prefix": [[n, list(a), {"rm": [str(rat(q)) for q in d["rm"]], "rv": [str(rat(q)) for q in d["rv"]]}] for n, a, d in w0]})
+    nfl, ffl = flow_level_cases(run.seed)
+    run.evaluations += nfl
+    fails += ffl
+    nfl, ffl = actnorm_scale_cases(run.seed)
+    run.evaluations += nfl
+    fails += ffl
     seen = set()
     for f in fails:
         key = (f["layer"], f["clause"], f.get("variant"), tuple(map(tuple, f["history"])))
